@@ -36,7 +36,7 @@ func init() { common.RegisterTranslator("cache-skeleton", Translate) }
 
 // Stmt mirrors Conc.Sem.stmt.
 type Stmt struct {
-	Op    string // ReadImmutable RLock RUnlock Lock Unlock Defer MapRead MapWrite If Return
+	Op    string // ReadImmutable RLock RUnlock Lock Unlock Defer MapRead MapWrite If Call(Then) Return
 	Field string
 	Sub   *Stmt
 	Then  []Stmt
@@ -53,6 +53,8 @@ func (s Stmt) Coq() string {
 		return "Defer " + s.Sub.Coq()
 	case "If":
 		return "If " + coqBlock(s.Then) + " " + coqBlock(s.Else)
+	case "Call":
+		return "Call " + coqBlock(s.Then)
 	default:
 		return s.Op
 	}
@@ -82,6 +84,7 @@ type Skeletons struct {
 	LoaderMeths    []MethodWrites
 	MethodCallsOn  []string // "pkg.var.Method" calls on package variables (not judged; listed)
 	Skipped        []string // files left out because of their build constraint (verification hooks)
+	Helpers        []string // unexported methods only called by other methods of the engine (checked inlined)
 }
 
 type PkgVar struct {
@@ -432,6 +435,9 @@ type engine struct {
 	entryMut   map[string]bool // ... that are assigned somewhere after construction
 	recv       *ast.Object     // receiver of the method being walked
 	method     string
+	methods    map[string]*ast.FuncDecl // all methods of the engine type, by name
+	stack      []string                 // methods being inlined (recursion guard)
+	inlined    map[string]bool          // methods that are called by another method of the engine
 }
 
 func (e *engine) fail(n ast.Node, format string, a ...any) {
@@ -788,6 +794,13 @@ func (e *engine) expr(x ast.Expr) []Stmt {
 				}
 				e.fail(x, "call of time.%s is not on the whitelist", f.Sel.Name)
 			}
+			if e.isRecv(f.X) {
+				callee, ok := e.methods[f.Sel.Name]
+				if !ok {
+					e.fail(x, "call of %s on the receiver: no such method of %s in this package (interface / function value?)", f.Sel.Name, engineType)
+				}
+				return append(args, Stmt{Op: "Call", Then: e.inline(x, callee)})
+			}
 			if pureTimeMethods[f.Sel.Name] && !e.isRecv(f.X) {
 				// value method of time.Time / time.Duration on a local value or on a whitelisted call
 				if id, ok := f.X.(*ast.Ident); ok && !isLocal(id) {
@@ -958,6 +971,49 @@ func (e *engine) stmt(s ast.Stmt) []Stmt {
 	return nil
 }
 
+// body translates the body of a method of the engine with that method's receiver in scope.
+func (e *engine) body(fd *ast.FuncDecl) []Stmt {
+	savedRecv, savedMethod := e.recv, e.method
+	defer func() { e.recv, e.method = savedRecv, savedMethod }()
+	e.method = fd.Name.Name
+	e.recv = nil
+	if len(fd.Recv.List[0].Names) == 1 {
+		e.recv = fd.Recv.List[0].Names[0].Obj
+	}
+	if fd.Body == nil {
+		e.fail(fd, "method without body")
+	}
+	if fd.Type.Results != nil {
+		for _, r := range fd.Type.Results.List {
+			if len(r.Names) > 0 {
+				e.fail(fd, "named results are not modelled")
+			}
+		}
+	}
+	if fd.Type.TypeParams != nil {
+		e.fail(fd, "generic methods are not modelled")
+	}
+	return e.block(fd.Body.List)
+}
+
+// inline returns the event skeleton of a call of another method of the same engine (the
+// callee's returns and deferred calls end the callee only: Sem.Call).  Recursion aborts.
+func (e *engine) inline(at ast.Node, callee *ast.FuncDecl) []Stmt {
+	name := callee.Name.Name
+	for _, s := range e.stack {
+		if s == name {
+			e.fail(at, "recursive call of %s (call chain %s)", name, strings.Join(append(e.stack, name), " -> "))
+		}
+	}
+	if len(e.stack) > 16 {
+		e.fail(at, "call chain too deep")
+	}
+	e.inlined[name] = true
+	e.stack = append(e.stack, name)
+	defer func() { e.stack = e.stack[:len(e.stack)-1] }()
+	return e.body(callee)
+}
+
 func (e *engine) translateMethod(fd *ast.FuncDecl) (m Method, err error) {
 	defer func() {
 		if r := recover(); r != nil {
@@ -968,19 +1024,8 @@ func (e *engine) translateMethod(fd *ast.FuncDecl) (m Method, err error) {
 			panic(r)
 		}
 	}()
-	e.method = fd.Name.Name
-	e.recv = nil
-	if len(fd.Recv.List[0].Names) == 1 {
-		e.recv = fd.Recv.List[0].Names[0].Obj
-	}
-	if fd.Type.Results != nil {
-		for _, r := range fd.Type.Results.List {
-			if len(r.Names) > 0 {
-				e.fail(fd, "named results are not modelled")
-			}
-		}
-	}
-	body := e.block(fd.Body.List)
+	e.stack = []string{fd.Name.Name}
+	body := e.body(fd)
 	return Method{Name: fd.Name.Name, Body: body}, nil
 }
 
@@ -1001,6 +1046,9 @@ func Extract(repo string) (*Skeletons, error) {
 		return nil, err
 	}
 	out := &Skeletons{}
+	eng.methods = map[string]*ast.FuncDecl{}
+	eng.inlined = map[string]bool{}
+	var decls []*ast.FuncDecl
 	for _, f := range lp.files {
 		for _, d := range f.Decls {
 			fd, ok := d.(*ast.FuncDecl)
@@ -1010,13 +1058,45 @@ func Extract(repo string) (*Skeletons, error) {
 			if fd.Body == nil {
 				return nil, notExtractable{"method " + fd.Name.Name + " has no body"}
 			}
-			m, err := eng.translateMethod(fd)
-			if err != nil {
-				return nil, err
-			}
-			out.Methods = append(out.Methods, m)
+			eng.methods[fd.Name.Name] = fd
+			decls = append(decls, fd)
 		}
 	}
+	var all []Method
+	for _, fd := range decls {
+		m, err := eng.translateMethod(fd)
+		if err != nil {
+			return nil, err
+		}
+		all = append(all, m)
+	}
+	// helper methods called from code of the package that is not a method of the engine are entry points too
+	calledOutside := map[string]bool{}
+	for _, f := range lp.files {
+		for _, d := range f.Decls {
+			fd, ok := d.(*ast.FuncDecl)
+			if !ok || fd.Body == nil || (fd.Recv != nil && len(fd.Recv.List) == 1 && recvTypeName(fd.Recv.List[0].Type) == engineType) {
+				continue
+			}
+			ast.Inspect(fd.Body, func(n ast.Node) bool {
+				if sel, ok := n.(*ast.SelectorExpr); ok && eng.methods[sel.Sel.Name] != nil {
+					if id, ok := sel.X.(*ast.Ident); !ok || !isPackageName(f, id) {
+						calledOutside[sel.Sel.Name] = true
+					}
+				}
+				return true
+			})
+		}
+	}
+	// entry points: exported methods, methods no other engine method calls, methods used outside the engine
+	for _, m := range all {
+		if ast.IsExported(m.Name) || !eng.inlined[m.Name] || calledOutside[m.Name] {
+			out.Methods = append(out.Methods, m)
+		} else {
+			out.Helpers = append(out.Helpers, m.Name)
+		}
+	}
+	sort.Strings(out.Helpers)
 	sort.Slice(out.Methods, func(i, j int) bool { return out.Methods[i].Name < out.Methods[j].Name })
 	have := map[string]bool{}
 	for _, m := range out.Methods {
@@ -1069,7 +1149,7 @@ func Render(sk *Skeletons) string {
 			fmt.Fprintf(&b, "Definition generated_%s : skeleton :=\n  %s.\n\n", strings.ToLower(m.Name), coqBlock(m.Body))
 		}
 	}
-	b.WriteString("(* every method of memoryCacheEngine, by name *)\nDefinition generated_methods : list (string * skeleton) :=\n  [")
+	b.WriteString("(* every entry-point method of memoryCacheEngine, by name (calls of other methods of the engine are inlined\n   as Call [...]; unexported methods that are only called by other methods of the engine are checked inlined:\n   " + strings.Join(sk.Helpers, ", ") + ") *)\nDefinition generated_methods : list (string * skeleton) :=\n  [")
 	for i, m := range sk.Methods {
 		if i > 0 {
 			b.WriteString(";\n   ")
